@@ -59,12 +59,28 @@ def gen(r, tier):
         sub[1] = "1" + sub[1][1:]
         sub[5] = W.rqos(r, big=True)
         cases.append(("LE", (W.rhex(r, 2), W.rhex(r, 2), W.rhex(r, 12), [sub, W.rsub(r, "HB")])))
+    # one inline-QoS parameter of 32 KiB and more (bit 15 of the 16-bit length set; the decoder must read the
+    # length unsigned), DATA and DATA_FRAG, both endiannesses; the largest ones that still fit the submessage,
+    # and 65532 which does not (recorded class)
+    for e in ("LE", "BE"):
+        for kind, sizes in (("DA", [32764, 32768, 40000, 65504, 65532, 4 * r.randint(8192, 16000), r.randint(32765, 65000)]),
+                            ("DF", [32764, 32768, 40000, 65492, 65532, 4 * r.randint(8192, 16000), r.randint(32765, 65000)])):
+            for sz in sizes:
+                cases.append((e, big_param_msg(r, kind, sz)))
     # INFO_REPLY with the multicast flag (regression of the repaired defect 4006ca4)
     for i in range(6):
         cases.append(("LE", (W.rhex(r, 2), W.rhex(r, 2), W.rhex(r, 12), [W.rsub(r, "IR", reply_flag=True), W.rsub(r, "HB")])))
     while len(cases) < n:
         cases.append((r.choice(["LE", "LE", "BE"]), W.rmsg(r)))
     return cases
+
+
+def big_param_msg(r, kind, size, pid=0x70):
+    """a DATA / DATA_FRAG whose inline QoS is one parameter with a value of `size` bytes"""
+    sub = W.rsub(r, kind, payload=r.choice([0, 4, 7]))
+    sub[1] = "1" + sub[1][1:]
+    sub[5 if kind == "DA" else 9] = "%d:%s" % (pid, W.rbytes_bx(r, size).replace(".", "+"))
+    return (W.rhex(r, 2), W.rhex(r, 2), W.rhex(r, 12), [sub, W.rsub(r, "HB")])
 
 
 def corpus():
@@ -79,6 +95,10 @@ def corpus():
         # regression of C08-inforeply-multicast-flag (fixed 4006ca4): the flag is written, both lists come back
         ("LE", h + ([["IR", "1", "1:7400:" + "00" * 16, "1:7401:" + "ef" * 16]],)),
         ("BE", h + ([["IR", "1", "-", "2:7401:" + "ef" * 16 + ",1:0:" + "00" * 16], ["HB", "10", "01020304", "06070809", "1", "1", "1"]],)),
+        # inline-QoS parameter lengths with bit 15 set (seeded C08b: length read as i16)
+        ("LE", h + ([["DA", "1100", "01020304", "06070809", "7", "112:01+ab*32766+02", "aabb"], ["HB", "10", "01020304", "06070809", "1", "1", "1"]],)),
+        ("BE", h + ([["DF", "100", "01020304", "06070809", "8", "1", "1", "1344", "40000", "113:03+cd*39998", "aabbccdd"], ["PD"]],)),
+        ("LE", h + ([["DA", "1000", "01020304", "06070809", "9", "114:04+ef*65502+05", "-"], ["IT", "0", "1", "2"]],)),
         # truncated length + payload bytes 0x12 (the NACK_FRAG id): the decoder panics on the tail (D17 meets D11)
         ("BE", h + ([["IT", "1", "1", "257"], ["DA", "0111", "6d1047f9", "57e324ac", "4294967297", "-", "a0a49d.12*199993.70b2d918"], ["PD"]],)),
     ]
